@@ -177,8 +177,10 @@ def check(chk: Check) -> None:
     chk.undecided += ["rdflib's store, iteration order and literal normalisation", "concrete data beyond the enumerated kinds/patterns"]
     jobs = fit_presets(jobs_for(chk.tier))
     for res in pmap(pipejob.run, jobs):
+        if res is None:
+            continue
         chk.functions.update(res["funcs"])
         judge(chk, res)
     chk.note(f"{len(jobs)} pipeline jobs")
-    bracket(chk)
-    glue(chk)
+    chk.part("bracket", lambda: bracket(chk))
+    chk.part("glue", lambda: glue(chk))
